@@ -9,6 +9,21 @@ HT = os.path.join(LC.SP, 'Hyperedge.tla')
 
 
 def scenario_ops(sc, rnd):
+    if sc.get('geo') == 1:
+        rects = {1: (37, 15, 43, 25, 4, 2), 2: (47, 35, 53, 45, 0, 1), 3: (7, 5, 13, 15, 4, 2), 4: (7, 45, 13, 55, 0, 1), 5: (57, 15, 63, 25, 4, 2)}
+        ops = []
+        for s_, (x1, y1, x2, y2, yq, dirs) in rects.items():
+            ops.append([1, s_, x1, y1, x2, y2])
+            ops.append([2, s_, 1, 2, yq, 1, 0, dirs, 0])
+        ops.append([3, 11, sc['jp'][0], sc['jp'][1]])
+        for i, t in enumerate(sc['terms']):
+            ops.append([4, 21 + i, 2, 11, 0, t[0], t[1], t[2]])
+        ops += [[13], [12, 11], [13]]
+        if sc['follow'] == 1:
+            ops += [[6, 1, 2, 0], [13]]
+        elif sc['follow'] == 2:
+            ops += [[13]]
+        return ops
     ops = [[1, 1, 2, 2, 10, 10], [1, 2, 14, 14, 22, 22], [1, 3, 26, 2, 34, 10]]
     # non-exclusive pins of both classes on both shapes
     for s in (1, 2, 3):
@@ -40,7 +55,7 @@ def main(tier):
     scs = json.load(open(gf))
     rnd = random.Random(V.seed())
     if quick:
-        scs = rnd.sample(scs, 300)
+        scs = rnd.sample([x for x in scs if x['geo'] == 0], 250) + rnd.sample([x for x in scs if x['geo'] == 1], 100)
     hists = [scenario_ops(sc, rnd) for sc in scs]
     scen = os.path.join(d, 'scen.txt')
     cfgs = []
@@ -62,8 +77,8 @@ def main(tier):
             vd.violation(key, '%s | scenario=%s mode=%d' % (what, json.dumps(sc), mode), {'scenario': sc, 'mode': mode, 'ops': hists[ex['index']]})
             continue
         snaps, _ = c11.snapshots([ex], hists, {ex['index']: (mode, opts)} if False else cfgs)
-        # only the snapshots after the hyperedge was registered and processed
-        seen_reg = False
+        # every snapshot after a processTransaction(): the improver runs on junction hyperedges whether or not they are registered for rerouting
+        seen_reg = True
         k = 0
         for ln in ex['lines']:
             j = json.loads(ln)
